@@ -19,7 +19,7 @@ func init() {
 		Assumptions: []string{"reference bytes from ref.EncTop; buffers are owned by the harness so aliasing of the result with the buffer is expected when capacity suffices"},
 		Work:        c06Work,
 		Post: func(a *mc.Agg) []string {
-			return needDims(a, "buf:nil", "buf:prefix-exact", "buf:prefix-spare", "buf:prev", "buf:prev[:0]", "conv:value", "conv:pointer", "shape:direct-iface", "encodes-to-nothing")
+			return needDims(a, "buf:nil", "buf:prefix-exact", "buf:prefix-spare", "buf:prev", "buf:prev[:0]", "conv:value", "conv:pointer", "conv:reused-variable", "shape:direct-iface", "encodes-to-nothing")
 		},
 	})
 }
@@ -41,6 +41,8 @@ func c06Types() []c06Type {
 		{ref.Struct(ref.Fld(1, ref.Ptr(L(ref.KString)))), true},
 		{ref.Map(L(ref.KString), L(ref.KInt)), true},
 		{ref.S0(), false},
+		{ref.Struct(ref.Fld(1, ref.S0()), ref.Fld(2, L(ref.KInt))), false},
+		{ref.Struct(ref.Fld(1, ref.Ptr(ref.S0())), ref.Fld(2, ref.Slice(ref.S0())), ref.Fld(3, ref.Map(L(ref.KString), ref.S0()))), false},
 		{ref.Struct(), false},
 		{ref.Struct(ref.Fld(1, pint), ref.Fld(2, L(ref.KInt))), false},
 		{L(ref.KInt), false}, {L(ref.KString), false}, {L(ref.KBytes), false}, {L(ref.KFloat64), false}, {L(ref.KBool), false}, {L(ref.KTime), false},
@@ -54,6 +56,7 @@ type c06Call struct {
 	buf   int // buffer kind
 	val   int
 	byPtr bool
+	same  bool // byPtr only: the pointer is to one long-lived variable that is refilled before every call
 }
 
 var c06Bufs = []string{"nil", "empty-cap0", "empty-spare", "prefix-exact", "prefix-spare", "prev", "prev[:0]"}
@@ -81,7 +84,7 @@ func c06Work(c *mc.Ctx) {
 		var calls []c06Call
 		for b := range c06Bufs {
 			for v := range vals {
-				calls = append(calls, c06Call{b, v, false}, c06Call{b, v, true})
+				calls = append(calls, c06Call{b, v, false, false}, c06Call{b, v, true, false}, c06Call{b, v, true, true})
 			}
 		}
 		for _, first := range calls {
@@ -153,6 +156,9 @@ func c06CallStr(t *ref.T, vals []ref.V, cl c06Call) string {
 	if cl.byPtr {
 		conv = "&value"
 	}
+	if cl.same {
+		conv = "&holder="
+	}
 	return fmt.Sprintf("Marshal(%s, %s %s)", c06Bufs[cl.buf], conv, ref.Str(t, vals[cl.val]))
 }
 
@@ -183,9 +189,16 @@ func c06Run(c *mc.Ctx, ct c06Type, vals []ref.V, hist []c06Call) {
 	c.Guard(pre, func() {
 		p := NewPlenc(ref.Cfg{})
 		var prev []byte
+		holder := reflect.New(t.Reflect()).Elem()
 		for i, cl := range hist {
 			v := vals[cl.val]
 			rv := ref.ToReflect(t, v)
+			if cl.same {
+				// the same variable, refilled: a codec must not remember anything about an address
+				holder.Set(rv)
+				rv = holder
+				c.Dim("conv:reused-variable")
+			}
 			var buf []byte
 			switch cl.buf {
 			case 0:
